@@ -872,3 +872,7 @@ EXPECTED_PROBES = ['second-use-of-stateful-shared-parser', 'RecursionError-raise
                    'interrupt-armed-but-parse-ended-first', 'reentrant-inner-parse-compared', 'tolerant-parse']
 
 STATES_MEASURE = ('distinct shared-state signatures observed between operations: sorted keys of the process-wide standard-argument parser cache plus the scalar attributes of every cached inner parser (coverage only, never an oracle)')
+
+# wall-clock guard per forked child (a program normally takes milliseconds to a second); only ever
+# turns a hang into 'timeout', which is confirmed twice before it is reported
+CHILD_WALL_S = 60
